@@ -86,10 +86,16 @@ def _verify_one(args):
                 eng.inline_ok.add(q)
         rep = eng.verify(qualname)
         obs = []
+        t_start = time.time()
+        func_budget = float(os.environ.get("PYVC_FUNC_BUDGET_S", "240"))
         for oi, ob in enumerate(rep.obligations):
             if oi % nshards != shard:
                 continue
-            eng.discharge(ob, use_cvc5=use_cvc5)
+            if time.time() - t_start > func_budget:
+                # solver budget of this function is used up: the remaining obligations stay undecided (never a violation)
+                ob.verdict, ob.backend, ob.time = "unknown", "budget-exhausted", 0.0
+            else:
+                eng.discharge(ob, use_cvc5=use_cvc5)
             obs.append({
                 "name": ob.name, "kind": ob.kind, "props": ob.props, "func": ob.func, "verdict": ob.verdict,
                 "backend": ob.backend, "time": round(ob.time, 4), "note": ob.note, "variant": getattr(ob, "variant", 0),
